@@ -319,6 +319,58 @@ pub fn check_long(tmp: &Path, c: &Long, obs: &mut Obs) -> CaseResult {
     r
 }
 
+// ---- limits and files beyond 32 bits -------------------------------------------------------------------------------
+
+/// A sparse pre-existing file (`set_len`) next to a limit beyond 4 GiB: only sizes are inspected.
+#[derive(Serialize, Deserialize, Debug, Clone)]
+pub struct HugeSize {
+    pub file_size: u64,
+    pub limit: u64,
+}
+
+pub fn check_huge(tmp: &Path, c: &HugeSize, obs: &mut Obs) -> CaseResult {
+    let dir = scratch(tmp, "c06h");
+    let r = (|| -> CaseResult {
+        let path = dir.join("active.log");
+        let f = std::fs::File::create(&path).unwrap();
+        if f.set_len(c.file_size).is_err() {
+            obs.class("sparse-files-unavailable(skipped)");
+            return Ok(());
+        }
+        drop(f);
+        let log: Arc<Mutex<Vec<Consultation>>> = Arc::new(Mutex::new(vec![]));
+        let roller = RollSpec::Fixed { base: 0, count: 1, pattern: "arch.{}.log".into() };
+        let policy = Box::new(ObservingPolicy { inner: make_policy(&dir, &TrigSpec::Size(c.limit), &roller).unwrap(), log: log.clone() });
+        let app = build_appender(&path, true, &None, policy).map_err(|e| Failure { sig: "C06:build".into(), msg: e.to_string() })?;
+        let mut size = c.file_size;
+        for i in 0..3 {
+            log.lock().unwrap().clear();
+            let msg = text_of(10, 0);
+            match catch(|| append_msg(&app, &msg)) {
+                Err(p) => return fail("C06:panic", format!("append panicked: {}", p)),
+                Ok(Err(e)) => return fail("C06:append-error", format!("append failed: {}", e)),
+                Ok(Ok(())) => {}
+            }
+            size += 10;
+            let cons = log.lock().unwrap().clone();
+            ensure!(cons.len() == 1, "C06:consultations", "the policy was consulted {} times", cons.len());
+            let k = &cons[0];
+            ensure!(k.len_estimate == size && k.on_disk == Some(size), "C06:size-accounting", "append #{} to a file of {} bytes: the policy was shown {} bytes, on disk {:?}, true size {}", i, c.file_size, k.len_estimate, k.on_disk, size);
+            let should = size > c.limit;
+            ensure!(!k.exists_after == should, if should { "C06:roll-deferred" } else { "C06:roll-early" }, "{} bytes against a limit of {}: rotation {} but {}", size, c.limit, if should { "must happen" } else { "must not happen" }, if k.exists_after { "the file stayed" } else { "it was rolled" });
+            if should {
+                size = 0;
+            }
+            obs.sub_evals += 1;
+        }
+        obs.nontrivial = true;
+        obs.class("sizes-beyond-32-bits");
+        Ok(())
+    })();
+    let _ = std::fs::remove_dir_all(&dir);
+    r
+}
+
 // ---- a user-defined pre-processing policy --------------------------------------------------------------------------
 
 /// The policy is consulted BEFORE the record is written (a user-defined pre-processing policy around the real
@@ -534,6 +586,13 @@ pub fn run(run: &Run) {
         let t = run.tmp.clone();
         run.eval_one("long", &Long { records: 70_000, len: 10, limit: 655_395 }, &move |c: &Long, o: &mut Obs| check_long(&t, c, o));
     }
+    if run.worker.0 == 2 % run.worker.1 {
+        let g: u64 = 1 << 32;
+        for (file_size, limit) in [(g - 15, g), (g - 5, g), (g + 3, 2 * g), (2 * g - 25, 2 * g), (5 * g, 5 * g + 15), (5 * g, 5 * g + 25), (g - 20, g - 5), (3 * g + 1, 3 * g + 20)] {
+            let t = run.tmp.clone();
+            run.eval_one("huge", &HugeSize { file_size, limit }, &move |c: &HugeSize, o: &mut Obs| check_huge(&t, c, o));
+        }
+    }
     let tmp3 = run.tmp.clone();
     let h = move |c: &Pre, o: &mut Obs| check_pre(&tmp3, c, o);
     run.run_replays::<Pre>("pre-processing", &h);
@@ -550,6 +609,13 @@ pub fn replay(part: &str, case: serde_json::Value) -> Option<CaseResult> {
             let tmp = std::env::temp_dir().join(format!("lv-replay-{}", std::process::id()));
             std::fs::create_dir_all(&tmp).ok()?;
             let r = check(&tmp, &serde_json::from_value(case).ok()?, &mut Obs::default());
+            let _ = std::fs::remove_dir_all(&tmp);
+            Some(r)
+        }
+        "huge" => {
+            let tmp = std::env::temp_dir().join(format!("lv-replay-{}", std::process::id()));
+            std::fs::create_dir_all(&tmp).ok()?;
+            let r = check_huge(&tmp, &serde_json::from_value(case).ok()?, &mut Obs::default());
             let _ = std::fs::remove_dir_all(&tmp);
             Some(r)
         }
@@ -574,7 +640,7 @@ pub fn replay(part: &str, case: serde_json::Value) -> Option<CaseResult> {
 pub fn meta() -> EvidenceMeta {
     EvidenceMeta {
         level: "exploration",
-        rule: "cases = limit N in {0,1,2,63,64,1023,1024,1025, random <= 5000} x pre-existing active file (absent / N-1 / N / N+1 / random) x append or truncate mode x window count 1-3 x pattern or multi-chunk encoder x 1-25 operations: appends whose byte length is chosen relative to the room left before the limit (room-3..room+3) or absolute around the 1 KiB buffer, with 1-4-byte characters, and restarts; the real CompoundPolicy(SizeTrigger, FixedWindowRoller) is wrapped in a harness Policy recording len_estimate and fs::metadata().len() at every consultation. Oracle: exactly one consultation per append; len_estimate == on-disk size == model size (pre-existing + records; 0 at open in truncate mode); rotation during this append iff size > N; afterwards the active file is absent or <= N bytes and byte-identical to pre-existing ++ records; the newest archive equals the rolled content. The configured path may be a symbolic link to the pre-existing file. Part long: 70 000 appends of 10 bytes through one open file whose limit is reached after 65 540 of them, accounting checked at every consultation. Part pre-processing: a user-defined pre-processing policy around the real size trigger and a roller failing on scripted calls: consulted before the record is written, it must be shown the true size every time, also right after a failed roll made the appender close its file. Part contended: 2-4 threads append through one appender whose encoder hands records over in pieces and dawdles; at every consultation len_estimate == on-disk size and the file is rolled iff that size > N. non-trivial = a consultation with |size - N| <= 1, or pre-existing content in append mode, or multi-byte payload, or a scripted roller failure (user-defined roller around the real one that fails on chosen calls and leaves the file in place: accounting and re-triggering must stay exact)".into(),
+        rule: "cases = limit N in {0,1,2,63,64,1023,1024,1025, random <= 5000} x pre-existing active file (absent / N-1 / N / N+1 / random) x append or truncate mode x window count 1-3 x pattern or multi-chunk encoder x 1-25 operations: appends whose byte length is chosen relative to the room left before the limit (room-3..room+3) or absolute around the 1 KiB buffer, with 1-4-byte characters, and restarts; the real CompoundPolicy(SizeTrigger, FixedWindowRoller) is wrapped in a harness Policy recording len_estimate and fs::metadata().len() at every consultation. Oracle: exactly one consultation per append; len_estimate == on-disk size == model size (pre-existing + records; 0 at open in truncate mode); rotation during this append iff size > N; afterwards the active file is absent or <= N bytes and byte-identical to pre-existing ++ records; the newest archive equals the rolled content. The configured path may be a symbolic link to the pre-existing file. Part long: 70 000 appends of 10 bytes through one open file whose limit is reached after 65 540 of them, accounting checked at every consultation. Part huge: sparse pre-existing files and limits around 4-20 GiB, three appends each, same accounting. Part pre-processing: a user-defined pre-processing policy around the real size trigger and a roller failing on scripted calls: consulted before the record is written, it must be shown the true size every time, also right after a failed roll made the appender close its file. Part contended: 2-4 threads append through one appender whose encoder hands records over in pieces and dawdles; at every consultation len_estimate == on-disk size and the file is rolled iff that size > N. non-trivial = a consultation with |size - N| <= 1, or pre-existing content in append mode, or multi-byte payload, or a scripted roller failure (user-defined roller around the real one that fails on chosen calls and leaves the file in place: accounting and re-triggering must stay exact)".into(),
         assumptions: vec!["foreground rotation build".into()],
         mutants_caught: vec![],
     }
